@@ -331,11 +331,14 @@ fn k_bytes(i: u32) -> Vec<u8> {
     k
 }
 
-/// multi-byte characters; neighbouring keys first differ INSIDE a multi-byte character
+/// multi-byte characters; neighbouring keys first differ INSIDE a multi-byte character (not in its last byte)
 fn k_str(i: u32) -> String {
     let mut s = String::from("ключ/");
-    s.push(char::from_u32(0x410 + i / 8).unwrap());
-    s.push(char::from_u32(0x4E00 + i % 8).unwrap());
+    // code points 0x41 apart: UTF-8 encodings of neighbours differ in the MIDDLE byte of a three
+    // byte character, so a separator cut right after the first differing byte would be invalid
+    // UTF-8 (old and new comparators deserialize &str keys)
+    s.push(char::from_u32(0x4E00 + 0x41 * (i / 8)).unwrap());
+    s.push(char::from_u32(0x5000 + 0x41 * (i % 8)).unwrap());
     s.push_str(&format!("/{i:03}"));
     for _ in 0..(i % 3) {
         s.push('é');
